@@ -66,9 +66,9 @@ Section Wf.
   Definition sub_wf (outer : list nat) (q : qry) : bool :=
     match q with
     | QSel [it] (SBase k) w =>
-        plain_col_item it &&
         match nth_error widths k with
         | Some rw =>
+            match it with XCol O i _ => (i <? rw)%nat | _ => false end &&
             match w with
             | None => true
             | Some p => pform p && bare_ok (rw :: outer) p
@@ -107,6 +107,13 @@ Section Wf.
     | _ => false
     end.
 
+  (* a branch of a set operation: a SELECT over a base table *)
+  Definition leaf_wf (q : qry) : bool :=
+    select_wf q && match q with QSel _ (SBase _) _ => true | _ => false end.
+
   Definition stmt_wf (c : chain) : bool :=
-    select_wf (fst c) && forallb (fun o => select_wf (snd o)) (snd c).
+    match snd c with
+    | [] => select_wf (fst c)
+    | ops => leaf_wf (fst c) && forallb (fun o => leaf_wf (snd o)) ops
+    end.
 End Wf.
